@@ -60,13 +60,14 @@ class Tx:
     def tick_to(self, t):
         if t <= self.last_t:
             return
-        d_ms = t - self.last_t
-        self.last_t = t
+        # the model's clock counts whole seconds: fractions (events at x.3 s, x.7 s) accumulate until they make one
+        d = (t - self.last_t) // 1000
         if not self.reset_done:
+            self.last_t = t
             return
-        d = d_ms // 1000
         if d == 0:
             return
+        self.last_t += d * 1000
         for snap in (self.S, self.R):
             if not snap:
                 continue
@@ -262,8 +263,12 @@ def daemon_events(raw_lines):
             if ev["outcome"] == "closed" and out and out[-1]["k"] == "route" and out[-1]["outcome"] == "occupied" \
                     and out[-1]["ent"] == ev["ent"] and out[-1]["tx"] == ev["tx"]:
                 out.pop()
-            if ev["outcome"] in ("spawn_recv", "closed") and not ev["to_sender"]:
+            # where the receive task of this id runs: the entity that spawns it.  ("closed" is also what the hook reports for
+            # a PDU reflected to the entity whose own SEND task of that id has ended: no receive task starts there.)
+            if ev["outcome"] == "spawn_recv" and not ev["to_sender"]:
                 where[tuple(ev["tx"])] = ev["ent"]
+            elif ev["outcome"] == "closed" and not ev["to_sender"]:
+                where.setdefault(tuple(ev["tx"]), ev["ent"])
             out.append(rec)
         elif k in ("task_start", "task_end"):
             key = tuple(ev["tx"])
